@@ -17,7 +17,7 @@ def plan_summary(plan, res=None):
 class ExplainerCheck(Check):
     focus = "mixed"
     oracle_classes = ()
-    runs = {"quick": 2400, "thorough": 160000}
+    runs = {"quick": 2400, "thorough": 120000}
     rule = ("plans = (swarm configuration, operation schedule) drawn from sha256(VERIF_SEED, property, tier, run_index); "
             "a run is non-trivial when at least one estimating step (model evaluation) happened; distinct = distinct "
             "digest of the full seam history (operations, every model/loss/imputer/storage call with arguments and "
